@@ -96,7 +96,7 @@ def main():
     tasks = []
     # the Max-SMT back ends cost ~0.3 s per block (solver process): they get a fixed stride of the templates;
     # quick: only the default option set sees every template, the other greedy sets a third each
-    stride = {"quick": 45, "thorough": 4}[tier]
+    stride = {"quick": 45, "thorough": 12}[tier]
     gstride = {"quick": 3, "thorough": 1}[tier]
     for k, o in enumerate(optsets):
         if o["backend"] == "greedy":
@@ -107,12 +107,12 @@ def main():
         # real documents: every option set sees a different rotating slice of documents in quick mode
         dsel = docs[:ndocs] if tier == "thorough" else [docs[(k * 2 + i) % len(docs)] for i in range(2)]
         for d in dsel:
-            for lo in range(0, per_doc if o["backend"] == "greedy" else per_doc // 2, 20):
+            for lo in range(0, per_doc if o["backend"] == "greedy" else (per_doc // 2 if tier == "quick" else 20), 20):
                 jobs.append(("doc", d, lo, lo + 20))
         tasks.append((o, jobs, 1000 if o["backend"] == "greedy" else 120))
     if tier == "thorough":
         # the full option product on the rule and memory templates only
-        small = [t for t in texts if len(t.split()) <= 8][:6000]
+        small = [t for t in texts if len(t.split()) <= 8][::3][:2500]
         quickset = {gasol.optset_name(o) for o in optsets}
         for k, o in enumerate(gasol.ALL_OPTSETS):
             if gasol.optset_name(o) not in quickset:
